@@ -1685,7 +1685,7 @@ def run(ctx):
     from .. import fuzz
 
     t0 = time.time()
-    fuzz.run_campaigns(ctx, "vf.fuzzt.c01", [("object_body", ctx.scale(10000, 800000), ctx.scale(8, 16))])
+    fuzz.run_campaigns(ctx, "vf.fuzzt.c01", [("object_body", ctx.scale(10000, 300000), ctx.scale(8, 16))])
     ctx.note("wall_fuzz_s", round(time.time() - t0, 1))
 
 
